@@ -150,6 +150,17 @@ SPEC += [
      "fun args => ∀ x y : Num, args = [.num x, .num y] → hugePow x y = false", "NumSem"),
 ]
 
+# ka_log and its dependants (under NumSem; side condition: log(float(base)) is not 0.0 — CPython raises ZeroDivisionError there,
+# the hand-written model reports overflow; Lean's Float.log is opaque, so the condition cannot be discharged for a concrete base)
+LOGZ = "∀ lb, Elementary.pyLog %s = .ok lb → (lb == 0) = false"
+SPEC.append(("log|(Number, Number)|ka.functions.ka_log", ".log2args", "ka_log_agree h _ _ (hP _ _ rfl)",
+             "fun args => ∀ x b : Num, args = [.num x, .num b] → " + LOGZ % "b", "NumSem"))
+for nm, lb in [("ln", "e"), ("log10", "ten"), ("log2", "two")]:
+    side = "fun _ => " + LOGZ % ("LogBase.%s.num" % lb)
+    SPEC.append(("%s|(Number)|ka.functions.ka_%s" % (nm, nm), ".fn1 .%s" % nm, "ka_%s_agree h _ hP" % nm, side, "NumSem"))
+    SPEC.append(("%s|(Quantity)|ka.functions.register_numeric_function.<locals>.quantity_function[ka.functions.ka_%s]" % (nm, nm),
+                 ".qfn .%s" % nm, "quantity_function_agree ka_%s .%s _ _ (ka_%s_agree h _ hP)" % (nm, nm, nm), side, "NumSem"))
+
 HOLDS = {".num": ("holds_num", "⟨n%d, rfl⟩"), ".intv": ("holds_intv", "⟨a%d, b%d, rfl⟩"), ".arr": ("holds_arr", "⟨xs%d, rfl⟩"),
          ".qty": ("holds_qty", "⟨m%d, d%d, rfl⟩"), ".int": ("holds_int", "⟨k%d, rfl⟩"), ".any": None}
 
